@@ -191,6 +191,11 @@ def fixed_corpus():
     # run that starts in the last trials)
     add(D([A2, B2], cross('AB', 'A', [['MinimumTrials', 5], ['AtLeastKInARow', 3, 'B', 'b0']])))
     add(D([A2, B2], cross('AB', 'A', [['MinimumTrials', 6], ['AtLeastKInARow', 3, 'B', 'b0']])))
+    # a weighted factor in a non-last crossing of a WEIGHT/REPEAT-mode multi-crossing block (crossings of different
+    # sizes); outside the reference (weights in some crossings), used by the formula-to-formula laws (C24) and C08
+    add(D([AW, B2, C3], multi('ABC', ['A', 'C'], mode='weight')))
+    add(D([AW, B2, C3], multi('ABC', ['A', 'C'], mode='repeat')))
+    add(D([AW, B3, C2], multi('ABC', ['A', 'B', 'C'], mode='weight')))
     # a two-trial preamble over a 3-level factor (3**2 preambles, not 3*2)
     add(D([A3, window('W', 'A', 3)], cross('AW', 'W')))
     # a window wider than the whole sequence (two trials), starting early: shifted source indices run past the grid
